@@ -224,6 +224,13 @@ def simplify_math_iterators(source: str) -> str:
 
     for node in core.walk(root, template):
         arg = node.args[0]
+        ranges = core.walk(arg, ast.Call(func=ast.Name(id="range")))
+        if any(call.keywords or not 1 <= len(call.args) <= 3 for call in ranges):
+            continue  # Not a valid call of range
+        constants_in_arg = core.walk(arg, ast.Constant)
+        if not all(type(constant.value) in {int, float} for constant in constants_in_arg):
+            continue  # Only numbers can be summed
+
         if core.match_template(arg, ast.Call(func=ast.Name(id="range"))):
             if any((node is not arg for node in core.walk(arg, (ast.Attribute, ast.Call)))):
                 continue
@@ -232,7 +239,7 @@ def simplify_math_iterators(source: str) -> str:
             yield node, _sum_range(arg)
 
         elif core.match_template(arg, basic_collection_template):
-            if any(core.walk(arg, ast.Attribute)):
+            if not arg.elts or any(core.walk(arg, ast.Attribute)):
                 continue
             if not all(
                 core.match_template(node.func, ast.Name(id="range"))
